@@ -58,11 +58,11 @@ type keyDef struct {
 	js   string // script expression for it: numeric literal or string literal
 }
 
-func kIdx(i int) keyDef     { return keyDef{strconv.Itoa(i), strconv.Itoa(i)} }
-func kStr(s string) keyDef  { return keyDef{s, strconv.Quote(s)} }
-func kIdxS(i int) keyDef    { return keyDef{strconv.Itoa(i), strconv.Quote(strconv.Itoa(i))} }
-func kNum(s string) keyDef  { return keyDef{s, s} } // canonical numeric key written as a number literal
-func kNeg(s string) keyDef  { return keyDef{s, "(" + s + ")"} }
+func kIdx(i int) keyDef    { return keyDef{strconv.Itoa(i), strconv.Itoa(i)} }
+func kStr(s string) keyDef { return keyDef{s, strconv.Quote(s)} }
+func kIdxS(i int) keyDef   { return keyDef{strconv.Itoa(i), strconv.Quote(strconv.Itoa(i))} }
+func kNum(s string) keyDef { return keyDef{s, s} } // canonical numeric key written as a number literal
+func kNeg(s string) keyDef { return keyDef{s, "(" + s + ")"} }
 func keysIdx(n int) []keyDef {
 	var ks []keyDef
 	for i := 0; i < n; i++ {
